@@ -361,10 +361,19 @@ def conv(value, path):
   fmt = utils.format(value, root_path=utils.KeyPath(list(path)), compact=False, verbose=False, python_format=True, max_bytes_len=64, max_str_len=256)
   items = child_items(value)
   if items is None:
-    if isinstance(value, str):      # the model computes repr itself for Latin-1 strings (Model/Html.v py_repr)
-      lk, raw, rep = 2, value, ('' if all(ord(ch) < 256 for ch in value) else repr(value))
+    # strings the model computes itself are sent empty: repr of Latin-1 strings (content and tooltip), of ints, bools and None
+    if isinstance(value, str):
+      lat = all(ord(ch) < 256 for ch in value)
+      lk, raw, rep = 2, value, ('' if lat else repr(value))
+      if lat: fmt = ''
+    elif type(value) is bool:
+      lk, raw, rep, fmt = [6, 1 if value else 0], '', '', ''
+    elif type(value) is int:
+      lk, raw, rep, fmt = [5, value], '', '', ''
+    elif value is None:
+      lk, raw, rep, fmt = 1, '', '', ''
     else:
-      lk = 4 if inspect.isclass(value) else 0 if isinstance(value, (bool, int, float)) else 1 if value is None else 3
+      lk = 4 if inspect.isclass(value) else 0 if isinstance(value, (bool, int, float)) else 3
       raw = ''
       rep = utils.format(value, compact=False, verbose=False, hide_default_values=True, python_format=True, use_inferred=True, max_bytes_len=64)
     return [0, lk, trlib.enc(tname), trlib.enc(cname), trlib.enc(raw), trlib.enc(rep), trlib.enc(fmt)]
